@@ -306,3 +306,25 @@ func VP_C14_step() {
 		vpCover("step-error")
 	}
 }
+
+// C13 K1c: a read fault at any offset of a PFB stream (including right behind the last byte,
+// where the reader would otherwise report end of file) surfaces as that fault.
+func VP_C13_pfb_fault() {
+	vpUnwind(400)
+	vpAllocLimit(1 << 16)
+	stream := vpShape(vpChoose("shape", 5))
+	at := vpChoose("faultAt", len(stream)+1)
+	src := &vpReader{data: stream, mode: vpChoose("mode", 2), faultAt: at, faultOnce: vpChoose("faultOnce", 2) == 1, name: "src"}
+	r := Decode(src)
+	var err error
+	for k := 0; k < 2*len(stream)+3 && err == nil; k++ {
+		buf := make([]byte, 1+vpChoose("buf", 2)*6)
+		_, err = r.Read(buf)
+	}
+	if src.faulted {
+		vpCover("fault-hit")
+		vpAssert("pfb-fault-surfaces", err != nil && err != io.EOF)
+	} else {
+		vpCover("fault-not-reached")
+	}
+}
